@@ -51,3 +51,8 @@ package ntlm
 //@   ensures[C14] proof: result0 != nil && (result0.Authenticated ==> #pamOK && #uiPass != "" && result0.Username == #uiUser && #uiSession == #pamSession)
 //@   ensures[C14] inv: cacheInv(h)
 //@   nopanic[C10]
+
+//@ func (*NTLMAuth).removeContext
+//@   requires[C10] cache: h.contextCache != nil && h.contextCache.cache != nil
+//@   inline
+//@   nopanic[C10]
